@@ -81,6 +81,13 @@ def make_batch(seed, n_traits, name, exclude=(), lite=()):
         if len(cand) < 3:
             break
         members = grng.sample(cand, grng.randint(2, min(4, len(cand))))
+        if k % 2 == 1:
+            # every other group gets a member with real temporary-return storage (a borrowed
+            # wrapped return), so that containers with non-empty ret_tmp fields occur in every batch
+            rt = [(m, t) for (m, t) in cand if t.has_rettmp()]
+            if rt and not any(t.has_rettmp() for (_, t) in members):
+                pick = grng.choice(rt)
+                members = [pick] + [x for x in members if x[0] != pick[0]][: max(1, len(members) - 1)]
         if any(t.has_rettmp() for (_, t) in members):
             # a member with a `: Send`/`: Sync` supertrait cannot share a group with borrowed
             # wrapped returns (the group's container then holds a Cell): rejected at compile time
